@@ -497,7 +497,70 @@ def r7(ctx):
                    site=name)
 
 
+def r15(ctx):
+    ctx.rule('C20.R15', 'a heap buffer and the size kept for it agree: where a member pointer gets malloc(A) and a member size gets '
+             'the constant B, every receive call that is handed (pointer, size) has B <= A, and every write pointer[i] whose '
+             'index is limited by that size (i <= size or i < size) stays below A - the terminator behind a full receive '
+             'needs the extra byte', minimum=2)
+    import re
+    fb = ctx.fb
+    n = 0
+    seen = set()
+    for fn in fb.functions:
+        if not (in_scope(fn) or fn.relfile.startswith('src/lib/utils/httpclient.')) or not fn.blocks or (fn.name, fn.sig) in seen:
+            continue
+        seen.add((fn.name, fn.sig))
+        caps = {}
+        consts = {}
+        for nid, d, rhs, op, lhs in fn.assignments():
+            if op != '=' or rhs is None or not d or not d.startswith('this.'):
+                continue
+            r = fn.nodes[fn.strip(rhs, casts=True)]
+            if r.get('k') == 'CallExpr' and r.get('callee') in ('malloc', 'calloc') and r.get('args'):
+                a = fn.val(r['args'][0]) if r['callee'] == 'malloc' else None
+                if a is not None:
+                    caps.setdefault(d, set()).add(a)
+            elif fn.val(rhs) is not None and fn.nodes[fn.strip(rhs, casts=True)].get('k') in ('IntegerLiteral', 'BinaryOperator', 'ParenExpr'):
+                consts.setdefault(d, set()).add(fn.val(rhs))
+        for pk, avals in sorted(caps.items()):
+            A = min(avals)
+            for c in fn.all('CXXMemberCallExpr', 'CallExpr'):
+                v = fn.nodes[c]
+                args = [fn.key(a) for a in v.get('args', [])]
+                if len(args) >= 2 and args[0] == pk and args[1] in consts and (v.get('callee') or '').split('::')[-1] in ('recv', 'read', 'recvfrom'):
+                    n += 1
+                    ctx.touch(fn)
+                    B = max(consts[args[1]])
+                    ctx.ob('C20.R15', fn, c, B <= A, 'receive into %s' % pk.replace('this.', ''), 'up to %d bytes into a buffer of %d' % (B, A))
+            for x in fn.all('ArraySubscriptExpr'):
+                v = fn.nodes[x]
+                if fn.key(v['base']) != pk:
+                    continue
+                par = fn.nodes.get(fn.parent(x), {})
+                if not (par.get('k') in ('BinaryOperator', 'CompoundAssignOperator') and par.get('lhs') == x):
+                    continue
+                idx = fn.key(v['idx'])
+                mx = None
+                for k, pol in ((a[0], a[1]) for a in fn.atoms(x)):
+                    m = re.match(r'^\((?:\([\w ]+\))?%s (<=|<) (this\.\w+)\)$' % re.escape(idx), k)
+                    if m and pol and m.group(2) in consts:
+                        b = max(consts[m.group(2)]) - (1 if m.group(1) == '<' else 0)
+                        mx = b if mx is None else min(mx, b)
+                n += 1
+                ctx.touch(fn)
+                ctx.ob('C20.R15', fn, x, mx is not None and mx < A, 'write %s[%s]' % (pk.replace('this.', ''), idx),
+                       'index up to %s in a buffer of %d bytes' % (mx, A))
+    if n < 2:
+        raise AnalysisBroken('C20.R15: only %d uses of a malloc\'ed member buffer found' % n)
+
+
 def run(ctx):
+    r15(ctx)
+    ctx.rule('C20.R16', 'a position searched in a string is used on the same content: no path leads from pos = s.find...() through '
+             'a statement that replaces or shortens s to a use of pos as start of s.substr/at/erase/insert/replace or as '
+             'subscript unless pos is searched again - substr() and at() throw std::out_of_range beyond the end and ebusd '
+             'catches nothing', minimum=40)
+    common.stale_position_rule(ctx, 'C20.R16', lambda f: in_scope(f) or f.relfile.startswith('src/ebusd/mqtthandler.'), 40)
     r1(ctx)
     r2(ctx)
     r3(ctx)
